@@ -366,6 +366,13 @@ def dependent_below_bound(d, b):
     assert typeorder(b, d) is Order.MORE
 """
 
+DEPREL_H = """
+def dependent_below_relatives_of_its_bound(d, c):
+    if subclasscheck(c, d.bound) or subclasscheck(d.bound, c):
+        assert typeorder(d, c) is Order.LESS
+        assert typeorder(c, d) is Order.MORE
+"""
+
 ALIAS_ORIGIN_H = """
 def alias_origin(a, o):
     assert typeorder(a, o) is Order.LESS
@@ -424,6 +431,26 @@ def t_dependent_below_bound(k, bound_kinds):
             harness(DEPBOUND_H, "mro")(I, d, b)
 
         return w, thunk, {"clause": "dependent_below_bound", "kinds": [k], "timeout_ms": TIMEOUT_MS, "retry_factor": 1, "fail_fast": True, "uses_lemmas": ["subclasscheck/reflexive"]}
+
+    return build
+
+
+def t_dependent_below_relatives(k, other_kinds=("Class",)):
+    """C10: a value-dependent method is preferred over methods declared on the bound, on its SUBCLASSES and on its supertypes:
+    typeorder(D, c) is LESS (and MORE the other way round) for every plain class c related to D's bound."""
+
+    def build():
+        w = MroWorld(unfold=1, sc_unfold=0)
+        d, c = _pair_consts()
+
+        def thunk(I):
+            I.assume(kind(d.t) == K[k])
+            I.assume(is_kind(c.t, list(other_kinds)))
+            I.assume(is_kind(base(d.t), ["Class"]))
+            I.assume(sc_reflexive_axiom())
+            harness(DEPREL_H, "mro")(I, d, c)
+
+        return w, thunk, {"clause": "dependent_below_relatives", "kinds": [k], "timeout_ms": TIMEOUT_MS, "retry_factor": 1, "fail_fast": False, "uses_lemmas": ["subclasscheck/reflexive"]}
 
     return build
 
